@@ -70,8 +70,13 @@ def byte_mutants(data, rng, k):
         i = rng.randrange(len(b) + 1)
         if kind == "unterminated":
             # an opener at i whose closer never comes (long tail up to the end of input)
-            op = rng.choice([b'"', b'"', b"/*", b"text:\n"])
+            op = rng.choice([b'"', b'"', b"/*", b"text:\n", b"text:\r\n"])
             tail = bytes(b[i:])
+            if op == b"text:\r\n":
+                # a multi-line string that never gets its lone dot, followed by many CRLF-terminated lines
+                tail = tail.replace(b"\n.", b"\n .") + b"".join(b"line %d of a long text\r\n" % k for k in range(60)) + b". \r\n"
+                out.append(bytes(b[:i]) + op + tail)
+                continue
             if op == b'"' and rng.random() < 0.5:
                 # escapes everywhere: every second octet of the tail is a backslash, and no closing quote
                 tail = b"\\" * 40 + tail.replace(b'"', b"'").replace(b"\\", b"/") + b"\\" * 41 + b"x"
@@ -163,6 +168,8 @@ def driver(prop, tier, seed, devs):
             out["machinery"].append("simulation %s: %s %s" % (which, res["error"], res["violated"]))
         simstates += res["states"]
         valid.extend(t for t, o in got if len(t) >= 12)
+    valid = sorted(set(tuple(t) for t in valid))      # TLC's workers print in any order: make the sample reproducible
+    valid = [list(t) for t in valid]
     rng.shuffle(valid)
     nvalid = 500 if tier == "quick" else 12000
     nmut = 6 if tier == "quick" else 10
@@ -189,10 +196,35 @@ def driver(prop, tier, seed, devs):
                 for carrier in ([("id", "redirect"), tv, ("semi", "")],
                                 [("id", "if"), ("id", "header"), ("tag", ":is"), ("lb", ""), ("str", v), ("comma", ""), ("str", "x"), ("rb", ""), tv, ("lc", ""), ("rc", "")],
                                 [("id", "require"), ("str", "vacation"), ("semi", ""), ("id", "vacation"), ("tag", ":subject"), tv, ("tag", ":addresses"), ("lb", ""), ("str", v), ("rb", ""), tv, ("semi", "")],
-                                [("id", "if"), ("id", "not"), ("id", "exists"), ("lb", ""), ("str", v), ("comma", ""), ("str", v), ("rb", ""), ("lc", ""), ("id", "if"), ("id", "true"), ("lc", ""), ("id", "redirect"), tv, ("semi", ""), ("rc", ""), ("rc", "")]):
+                                [("id", "if"), ("id", "not"), ("id", "exists"), ("lb", ""), ("str", v), ("comma", ""), ("str", v), ("rb", ""), ("lc", ""), ("id", "if"), ("id", "true"), ("lc", ""), ("id", "redirect"), tv, ("semi", ""), ("rc", ""), ("rc", "")],
+                                # a string of this form as the parameter of every tag that takes one
+                                [("id", "require"), ("lb", ""), ("str", "body"), ("comma", ""), ("str", "date"), ("comma", ""), ("str", "fileinto"), ("comma", ""), ("str", "imap4flags"), ("rb", ""), ("semi", ""),
+                                 ("id", "if"), ("id", "anyof"), ("lp", ""), ("id", "body"), ("tag", ":contains"), ("tag", ":content"), tv, ("lb", ""), ("str", "k1"), ("comma", ""), ("str", v), ("rb", ""), ("comma", ""),
+                                 ("id", "not"), ("id", "date"), ("tag", ":zone"), tv, ("str", "date"), ("str", "hour"), ("str", "1"), ("comma", ""),
+                                 ("id", "currentdate"), ("tag", ":zone"), tv, ("tag", ":is"), ("str", "date"), tv, ("rp", ""), ("lc", ""),
+                                 ("id", "fileinto"), ("tag", ":flags"), tv, tv, ("semi", ""), ("id", "keep"), ("semi", ""), ("rc", "")],
+                                [("id", "require"), ("str", "vacation"), ("semi", ""), ("id", "vacation"), ("tag", ":from"), tv, ("tag", ":handle"), tv, ("tag", ":addresses"), tv, ("tag", ":subject"), tv, tv, ("semi", "")]):
                     for lay in ("space", "crlf"):
                         batch.append(R.render(carrier, lay)[0])
-        batch = list(dict.fromkeys(batch))
+    if prop in ("C01", "C07", "C03"):
+        # the same valid scripts with their `require` written in other legal ways: several commands, single strings,
+        # duplicates before new names, other order
+        for toks in valid[: (250 if tier == "quick" else 6000)]:
+            j = toks.index(("semi", ""))
+            names = [v for k, v in toks[:j] if k == "str"]
+            body = toks[j + 1:]
+            rng.shuffle(names)
+            half = max(1, len(names) // 2)
+            v1 = []
+            for nme in names[:half]:
+                v1 += [("id", "require"), ("str", nme), ("semi", "")]
+            lst = [names[0], names[0]] + names[half:] + [names[-1]]
+            v1 += [("id", "require"), ("lb", "")]
+            for q, nme in enumerate(lst):
+                v1 += ([("comma", "")] if q else []) + [("str", nme)]
+            v1 += [("rb", ""), ("semi", "")]
+            batch.append(R.render(v1 + body, rng.choice(LAYS))[0])
+    batch = list(dict.fromkeys(batch))
     recs, cnt, st = ptrace.judge_scripts(batch, devs, roundtrip=(prop == "C04"))
     if st["error"]:
         out["machinery"].append("SieveTrace on generated scripts: %s" % st["error"])
